@@ -16,6 +16,11 @@ Three parties are compared on the same cases:
     compressible payloads (blank / repeated 64-byte record, 1 MiB+1 .. 8 MiB, zlib levels 1/6/9, ratios up to ~1000:1,
     plus 2 MiB incompressible) as raw packets and as ping arguments echoed by a real Connection (real code vs
     refcodec only, not through the Lean driver).
+(d) one message per packet: a real Connection whose first stream write is gated while 2..4 further requests are issued
+    from other threads (they queue), then released: every packet on the wire must reference-decode to exactly one
+    message with no trailing bytes, each request once; and a packet whose payload is a message followed by a second
+    message / garbage / a forged reply given to a real serving Connection: only the first message is acted on (as the
+    model's load, theorem one_message_per_packet).
 (c) conversations: a real Connection talks to refcodec's peer and exercises EVERY published handler 1..20 (ping,
     close, getroot, getattr, delattr, setattr, call, callattr, repr, str, cmp, hash, dir, pickle (refused), del,
     inspect, buffiter, old slicing, leaving a `with proxy:` block (CTXEXIT), isinstance across the connection), plus
@@ -455,6 +460,119 @@ def check_big_ping(direction, kind, n, level):
     if got != data:
         return "a ping of %d bytes echoed by a conforming peer at zlib level %d returned other data" % (n, level)
     return None
+
+
+# -- (d) one message per packet: sends queued behind a gated write; trailing bytes inside a packet's payload
+def check_queued_sends(n_queued=2, big_first=False, compress=True):
+    """A real Connection: thread T1's stream.write is gated, `n_queued` further requests are issued from other threads
+    meanwhile (they queue in `_send_queue` and return), then the gate opens.  Every packet on the wire is checked with
+    the independent reference decoder: exactly one message per packet, no trailing bytes; each request exactly once."""
+    import threading
+    rpyc, _b, channel, consts, _p, _s = rp()
+    st = make_loop_stream()
+    gate, entered = threading.Event(), threading.Event()
+    plain_write = st.write
+    first = [True]
+
+    def gated_write(data):
+        if first[0]:
+            first[0] = False
+            entered.set()
+            gate.wait(10)
+        plain_write(data)
+    st.write = gated_write
+    conn = rpyc.VoidService()._connect(channel.Channel(st, compress), {})
+    datas = [("first " * (2000 if big_first else 1))] + ["queued-%d" % k for k in range(n_queued)]
+    errors = []
+
+    def send(d):
+        try:
+            conn.async_request(consts.HANDLE_PING, d)
+        except Exception as ex:  # noqa
+            errors.append("%s%r" % (type(ex).__name__, ex.args[:1]))
+    t1 = threading.Thread(target=send, args=(datas[0],), daemon=True)
+    t1.start()
+    problems = []
+    try:
+        if not entered.wait(10):
+            return ["the first request never reached the stream"], []
+        others = [threading.Thread(target=send, args=(d,), daemon=True) for d in datas[1:]]
+        for t in others:
+            t.start()
+            t.join(10)                      # returns at once: the send lock is taken, the message stays queued
+            if t.is_alive():
+                problems.append("a sender blocked although another thread holds the send lock")
+    finally:
+        gate.set()
+    t1.join(10)
+    if t1.is_alive():
+        problems.append("the gated sender did not finish")
+    problems += ["sender raised " + e for e in errors]
+    wire = bytes(st.out)
+    seen, rest, k = [], wire, 0
+    while rest:
+        try:
+            payload, rest = refcodec.unframe(rest)
+        except (refcodec.FormatError, zlib.error) as ex:
+            problems.append("packet %d: %s" % (k, ex))
+            break
+        try:
+            val = refcodec.decode(payload)
+        except refcodec.FormatError as ex:
+            problems.append("packet %d is not ONE encoded message (published: one message per packet): %s" % (k, ex))
+            seen.append(None)
+            k += 1
+            continue
+        try:
+            m = refcodec.parse_message(val)
+            seen.append(m)
+        except refcodec.FormatError as ex:
+            problems.append("packet %d: %s" % (k, ex))
+        k += 1
+    pings = sorted(m[3][1][0] for m in seen if m and m[0] == "request" and m[2] == refcodec.HANDLERS["PING"])
+    if not problems and pings != sorted(datas):
+        problems.append("the %d requests issued are not each on the wire exactly once as a packet of their own: %d packets, "
+                        "pings %r" % (len(datas), len(seen), [p[:12] for p in pings]))
+    conn._closed = True
+    return problems, [len(wire), len(seen)]
+
+
+def check_trailing_in_packet(kind, compress=True):
+    """A conforming packet = ONE message.  A packet whose payload is a message followed by further bytes (a second
+    encoded message, or garbage) is given to a real serving Connection: at most the first message may be acted on
+    (the pinned `brine.load` ignores what follows the value; so does the model's `Brine.load`)."""
+    _rpyc, _b, channel, _c, _p, _s = rp()
+    R = refcodec
+    st = make_loop_stream()
+    conn = make_service()._connect(channel.Channel(st, compress), dict(SERVER_CONFIG))
+    m1 = R.encode(R.request(41, R.HANDLERS["PING"], R.box_value(("first",))))
+    tail = {"message": R.encode(R.request(42, R.HANDLERS["PING"], R.box_value(("second",)))),
+            "garbage": b"\x07\x09\xff", "reply": R.encode(R.reply(41, R.box_value("forged")))}[kind]
+    st.inbox += R.frame(m1 + tail, compress)
+    problems = []
+    try:
+        while st.inbox and not conn.closed:
+            conn.serve(0)
+    except Exception as ex:  # noqa
+        problems.append("serving a packet with %d trailing bytes raised %s%r" % (len(tail), type(ex).__name__, ex.args[:1]))
+    peer = R.RefPeer()
+    peer.feed(bytes(st.out))
+    problems += peer.problems
+    answered = sorted(peer.pending)
+    if answered != [41]:
+        problems.append("a packet carrying one message followed by %s (%d bytes) produced responses for seq %r; published: one "
+                        "packet = one message, so exactly the first (seq 41) is answered" % (kind, len(tail), answered))
+    elif peer.pending[41][:1] != ("reply",) or peer.pending[41][2] != (R.LABEL_VALUE, "first"):
+        problems.append("the first message of the packet was not answered with its own data: %r" % (peer.pending[41],))
+    try:
+        conn.close()
+    except Exception:  # noqa
+        pass
+    return problems, m1 + tail, m1
+
+
+QUEUED_CASES = [(2, False, True), (3, False, True), (2, True, True), (4, True, False)]
+TRAILING_KINDS = ("message", "garbage", "reply")
 
 
 # ---------------------------------------------------------------------------------------------- (c) conversations
@@ -1184,6 +1302,24 @@ def correspondence(ctx):
         c.signatures.add("ping-large:%s:%s:%d:%d" % (direction, kind, n, level))
         if msg:
             disagree("ping-large", "%s %s %d bytes level=%d" % (direction, kind, n, level), msg, "the data is echoed")
+    # (d) one message per packet
+    for n_q, big, comp in QUEUED_CASES:
+        c.evaluations += 1
+        probs, stats = check_queued_sends(n_q, big, comp)
+        c.count("queued-sends:%d-behind-a-gated-write:%s" % (n_q, "ok" if not probs else "PROBLEM"))
+        c.signatures.add("queued:%d:%s:%s" % (n_q, big, comp))
+        if probs:
+            disagree("queued-sends", "queued=%d big_first=%s compress=%s" % (n_q, big, comp), "; ".join(probs)[:400],
+                     "%d packets, one message each" % (n_q + 1))
+    for kind in TRAILING_KINDS:
+        c.evaluations += 1
+        probs, payload, m1 = check_trailing_in_packet(kind)
+        c.count("trailing-bytes-in-packet:%s:%s" % (kind, "ok" if not probs else "PROBLEM"))
+        if probs:
+            disagree("trailing-in-packet", kind, "; ".join(probs)[:400], "only the first message is acted on")
+        # the model's load on the same payload: the first message, the rest ignored
+        add("brine dec " + payload.hex(), "dec-trailing", payload.hex(), "ok " + valtext.canon(refcodec.decode(m1)),
+            "dec-trailing:" + kind)
     c.extra["large_packet_compression_ratios"] = ratios
     if len(c.samples) < 12:
         c.samples.append(dict(part="recv-large", case="blank %d bytes at zlib level 9" % (8 * MIB),
@@ -1246,7 +1382,7 @@ def correspondence(ctx):
             if got.startswith("ok"):
                 disagree(part, case, "published text rule must refuse", got)
             continue
-        if part == "dec" and got.startswith("ok "):
+        if part in ("dec", "dec-trailing") and got.startswith("ok "):
             got = "ok " + valtext.canon(valtext.from_text(got[3:]))
         if sig and case not in ("", "N"):
             c.signatures.add(sig)
@@ -1314,6 +1450,15 @@ def oracle_search(ctx, corr, broken):
             msg, _ratio = check_big_recv(kind, n, level)
             if msg and "frame:recv-large" not in known:
                 return dict(kind="input", part="recv-large", payload=kind, size=n, level=level), msg, "frame:recv-large"
+        for n_q, big, comp in QUEUED_CASES:
+            probs, _st = check_queued_sends(n_q, big, comp)
+            if probs and "packet:queued-sends" not in known:
+                return (dict(kind="schedule", part="queued-sends", queued=n_q, big_first=big, compress=comp),
+                        "; ".join(probs)[:600], "packet:queued-sends")
+        for kind in TRAILING_KINDS:
+            probs, _pl, _m1 = check_trailing_in_packet(kind)
+            if probs and "packet:trailing" not in known:
+                return dict(kind="input", part="trailing-in-packet", tail=kind), "; ".join(probs)[:600], "packet:trailing"
         for direction, kind, n, level in BIG_PING:
             msg = check_big_ping(direction, kind, n, level)
             if msg and "frame:ping-large" not in known:
@@ -1350,7 +1495,8 @@ def oracle_search(ctx, corr, broken):
             f = value_failure(v)
             if f:
                 return f
-    if any(d.get("op", "").startswith(("send", "recv", "ping-large", "model:frame", "model:recv")) for d in corr.disagreements):
+    if any(d.get("op", "").startswith(("send", "recv", "ping-large", "queued", "trailing", "model:frame", "model:recv"))
+           for d in corr.disagreements):
         f = frame_failures()
         if f:
             return f
@@ -1407,6 +1553,15 @@ def replay(case):
     elif part == "recv":
         data = bytes((i * 31 + case["size"]) % 7 for i in range(case["size"]))
         out["oracle"] = check_recv_real(data, case["level"], case["force"]) or "holds"
+    elif part == "queued-sends":
+        probs, stats = check_queued_sends(case["queued"], case["big_first"], case["compress"])
+        out["implementation"] = dict(wire_bytes=stats[0] if stats else None, packets=stats[1] if stats else None, problems=probs)
+        out["oracle"] = "; ".join(probs) or "holds"
+    elif part == "trailing-in-packet":
+        probs, payload, m1 = check_trailing_in_packet(case["tail"])
+        out["implementation"] = probs or "only the first message was answered"
+        out["oracle"] = "; ".join(probs) or "holds"
+        out["model"] = run_driver(["brine dec " + payload.hex()], exe="drv_spec")[0][:300]
     elif part == "recv-large":
         msg, ratio = check_big_recv(case["payload"], case["size"], case["level"])
         out["implementation"] = msg or "Channel.recv returned the data"
